@@ -296,7 +296,7 @@ pub fn check_map(map_seed: u64, mask: u64, n_seeds: usize, only_seed: Option<u64
                 }
                 // ---- D3 duplicates
                 if !texts.is_empty() {
-                    for variant in 0..3 {
+                    for variant in 0..6 {
                         let mut dup = texts.clone();
                         rng.shuffle(&mut dup);
                         let i = rng.below(dup.len());
@@ -310,8 +310,32 @@ pub fn check_map(map_seed: u64, mask: u64, n_seeds: usize, only_seed: Option<u64
                             2 => (i + 1).min(dup.len()),           // adjacent
                             _ => rng.below(dup.len() + 1),         // anywhere
                         };
-                        dup.insert(pos, extra);
-                        let name = dup[pos].0.clone();
+                        dup.insert(pos, extra.clone());
+                        let mut name = dup[pos].0.clone();
+                        match variant {
+                            3 => {
+                                // the same name three times
+                                let p2 = rng.below(dup.len() + 1);
+                                dup.insert(p2, extra.clone());
+                            }
+                            4 => {
+                                // every name twice
+                                let copy = texts.clone();
+                                dup = texts.clone();
+                                dup.extend(copy);
+                                rng.shuffle(&mut dup);
+                                name = dup[0].0.clone();
+                            }
+                            5 => {
+                                // first and last position
+                                dup = texts.clone();
+                                rng.shuffle(&mut dup);
+                                let first = dup[0].clone();
+                                name = first.0.clone();
+                                dup.push(first);
+                            }
+                            _ => {}
+                        }
                         stats.dup_checks += 2;
                         let text = module_text(kind, &dup, &mut rng, false);
                         match guarded(|| AnyMap::parse_module(kind, &text)) {
